@@ -326,16 +326,16 @@ theorem evalRights_from (env : Env) (acts : List Expr) (vs : List (Tok Ã— Expr Ã
 
 /-! ### write-back -/
 
-/-- the item attribute a marked store name is written to -/
-def Env.itemName (e : Env) (k : Bytes) : Bytes := match alookup k e.aliases with | some a => a | none => k
+/-- the item attribute a marked store name is written to: the store name itself (the names were
+    resolved through the alias table when the expression named them) -/
+def Env.itemName (_e : Env) (k : Bytes) : Bytes := k
 
 theorem apply_step_ne (e : Env) (excl : List Bytes) (it : Item) (k name : Bytes) (h : e.itemName k â‰  name) :
     alookup name ((fun it k =>
       if excl.contains k then it else
-      let nm := match alookup k e.aliases with | some a => a | none => k
       match alookup k e.store with
-      | none => aerase nm it
-      | some o => ainsert nm o.toAV it) it k) = alookup name it := by
+      | none => aerase k it
+      | some o => ainsert k o.toAV it) it k) = alookup name it := by
   simp only
   split
   Â· rfl
